@@ -36,6 +36,10 @@ FIXED = [
  ("fix: an empty line comment", ["C15"], "`--` directly followed by a newline swallowed the whole next line (`--\\nfind all 'a'` parsed to nothing)"),
  ("fix: a block comment whose text ends in", ["C15"], "`find --( x )-)-- all 'a'` rejected as an unending block comment"),
  ("fix: whitespace or a comment after the amount clause", ["C15"], "`find all` is accepted but `find all ` (trailing blank) was rejected"),
+ ("fix: Matches.Json() converts", ["C17","C18"], "Matches.Json() panicked on every call (type assertion on the named slice type), so `-json` could not work"),
+ ("fix: `*` in a file pattern", ["C20"], "`*.txt` did not select `a.txt.txt`, `a*b` did not select `abxb` (first-occurrence search)"),
+ ("fix: ParsePath no longer prints", ["C18"], "`vore -com .. -files a.txt -json` printed `[{entryType:2 value:a.txt}]` before the JSON document"),
+ ("fix: -json-file / -formatted-json-file open", ["C18"], "`vore .. -json-file out.json` panicked: truncate out.json: invalid argument (file opened read-only)"),
 ]
 
 FINDINGS = [
